@@ -42,8 +42,11 @@ TRUSTED_BASE = TRUSTED_BASE_COMMON + [
     "same instants",
 ]
 ASSUMPTIONS = [
-    "addresses are ID addresses of existing accounts / wallets or of no actor at all; key addresses that would "
-    "make resolve_to_actor_id create a new account are not explored",
+    "address arguments are ID addresses of existing accounts / wallets or of no actor at all, or (signer arguments "
+    "of AddSigner/RemoveSigner/SwapSigner) the public-key address of an EXISTING account: the model's `addr` carries "
+    "the actor id the argument resolves to plus a flag `a_key` recording the form used; the methods only see the id "
+    "(resolve_to_actor_id), the flag only makes payload equality coincide with equality of the serialised bytes; key "
+    "addresses of not-yet-existing actors (which would create an account) are not explored",
     "next_tx_id (i64) and u64 thresholds do not overflow; the theorems quantify over all Z (generator stays in range)",
     "call targets other than wallets and accounts (singleton actors, miners, ...) are represented by `POpaque c`: "
     "a call whose exit code does not depend on the modelled state (the harness realises c = 0, 21, 22)",
@@ -68,7 +71,11 @@ def extra_checks(root, work, stats, tier):
         if ex.get("max_call_depth", 0) >= ex.get("check_fuel", 64):
             out.append(("fuel", f"a real call chain of depth {ex.get('max_call_depth')} reached the model's fuel"))
         if st.get("cases", 0) > 50:
-            for k in ("wallet_sends", "inner_send_failed", "reentrant_sends"):
+            for k in ("wallet_sends", "inner_send_failed", "reentrant_sends",
+                      # states needed to see an order-changing purge, a lock check skipped on the
+                      # already-approved path, a purge keyed by the unresolved address
+                      "purges_of_non_last_approver_of_3plus", "preapproved_executions",
+                      "preapproved_lock_refusals", "signer_removed_by_key_address"):
                 if ex.get(k, 0) == 0:
                     out.append(("generator-coverage", f"{st['tag']}: no `{k}` explored"))
     return out
